@@ -60,10 +60,7 @@ impl<'a> StringLexer<'a> {
                     b'(' => Some(b'('),
                     b')' => Some(b')'),
                     b'\n' => {
-                        // ignore end-of-line marker
-                        if let Ok(b'\r') = self.peek_byte() {
-                            let _ = self.next_byte();
-                        }
+                        // ignore end-of-line marker (LF; a CR that follows is not part of it)
                         self.next_lexeme()?
                     }
                     b'\r' => {
